@@ -152,6 +152,29 @@ func driveAllocs(s *shardSet, rng *rand.Rand, thorough bool) ([]string, map[stri
 			measured++
 		}
 	}
+	// appends that fit exactly or nearly, with partly filled last frames on both sides (fits is a statement about
+	// samples, not frames): no allocation when destination length + source length <= capacity
+	for _, ty := range []string{"int8", "int64", "float32"} {
+		for ch := 2; ch <= 4; ch++ {
+			for dl := 1; dl < 2*ch; dl++ {
+				for sl := 1; sl <= 2*ch; sl++ {
+					w := s.Next()
+					w.Reset()
+					capFrames := (dl + sl + ch - 1) / ch // the smallest whole number of frames that holds both
+					w.Alloc(ty, ch, dl/ch, capFrames)
+					for i := 0; i < dl%ch; i++ {
+						w.AppendSample(0, w.NextStamp())
+					}
+					w.Alloc(ty, ch, sl/ch, (sl+ch-1)/ch)
+					for i := 0; i < sl%ch; i++ {
+						w.AppendSample(1, w.NextStamp())
+					}
+					w.Append(0, 1)
+					measured++
+				}
+			}
+		}
+	}
 	// large conversions (a path that hands big blocks to helper goroutines or scratch buffers allocates)
 	for i, f := range ConvFns {
 		for j, total := range []int{1<<14 + 3, 1<<17 + 5, 1<<20 + 1} {
